@@ -5,4 +5,9 @@ TEXTS = {
         "technique": "property-based round-trip and decoder robustness testing (rapid), native go fuzzing in the thorough tier",
     },
 }
+TEXTS["C03"] = {
+    "level": "Generated-input search over peersets, per-peer metric states, current allocations, factor pairs, user allocations, both allocators and three entry points (Cluster.Pin, the BlockAllocate RPC, PeerRemove as the exclusion path) against a validity predicate written from the statement (no duplicates, additions only from healthy non-excluded members, healthy holders kept / truncated to max, between min and max healthy holders, requested-then-best-ranked preference, failure iff too few reachable and then nothing changes, -1 gives the empty list). Exploration is the right level: the space is a product of small finite domains sampled densely (ties, boundary factors) but not enumerated.",
+    "note": "Real Cluster, allocate.go, both allocators and pubsubmon from /repo; consensus, tracker, IPFS and informer are harness fakes behind the component interfaces. Metrics expire +-1 h (no near-now expiry). Trusts the harness model of 'healthy'.",
+    "technique": "property-based testing with a validity-predicate oracle (rapid)",
+}
 PENDING = {}
